@@ -169,6 +169,42 @@ func (c *vChain) restart() {
 	c.restarts++
 }
 
+// exportImport commits the open block, exports the application state the way
+// `akash export` does and starts a new chain from it (fresh database,
+// InitChain at the exported height).  The receiver is left as it is.
+func (c *vChain) exportImport() (nc *vChain, err error) {
+	defer func() {
+		if r := recover(); r != nil {
+			nc, err = nil, fmt.Errorf("panic: %v", r)
+		}
+	}()
+	if c.open {
+		c.endBlock()
+	}
+	exp, err := c.app.ExportAppStateAndValidators(false, nil)
+	if err != nil {
+		return nil, err
+	}
+	db := dbm.NewMemDB()
+	a := NewApp(log.NewNopLogger(), db, nil, true, 0, map[int64]bool{}, DefaultHome, simapp.EmptyAppOptions{})
+	nc = &vChain{db: db, app: a, txcfg: c.txcfg, profile: c.profile, actors: c.actors, byAddr: c.byAddr,
+		now: c.now, escrowAddr: c.escrowAddr, height: exp.Height - 1}
+	a.InitChain(abci.RequestInitChain{
+		ChainId:       vChainID,
+		Time:          c.now,
+		InitialHeight: exp.Height,
+		Validators:    []abci.ValidatorUpdate{},
+		ConsensusParams: &abci.ConsensusParams{
+			Block:     &abci.BlockParams{MaxBytes: 22020096, MaxGas: -1},
+			Evidence:  &tmproto.EvidenceParams{MaxAgeNumBlocks: 302400, MaxAgeDuration: 504 * time.Hour, MaxBytes: 10000},
+			Validator: &tmproto.ValidatorParams{PubKeyTypes: []string{"ed25519"}},
+		},
+		AppStateBytes: exp.AppState,
+	})
+	nc.beginBlock()
+	return nc, nil
+}
+
 func (c *vChain) header() tmproto.Header {
 	return tmproto.Header{ChainID: vChainID, Height: c.height, Time: c.now}
 }
